@@ -158,6 +158,7 @@ func modelSyncMapRange(st *State, fr *Frame, fn *ssa.Function, a []Val, pos toke
 	ktag, kval := st.fresh("smk.tag", SInt), st.fresh("smk.val", SInt)
 	st.assume(and(eq(kt, fmt.Sprintf("(pair %s %s)", ktag, kval)), fmt.Sprintf("(> %s 0)", ktag), sel(sel(d, id), kt), not(sel(vis, kt))))
 	st.setArr(visName, "(Array Int Bool)", store(vis, kt, "true"))
+	st.countIteration()
 	{
 		n := st.arr(cntName, "Int")
 		st.assume(fmt.Sprintf("(and (>= %s 0) (< %s 281474976710656))", n, n)) // a map holds fewer than 2^48 keys
